@@ -218,38 +218,66 @@ func main() {
 		mcDone <- r
 	}()
 
-	// ---- 2. edges of the pinned-tree model ---------------------------------------
-	er, err := vlib.RunTLC(vlib.TLCOpts{Module: "MC_Project", Config: edgeCfg, Workers: 1, Scratch: scratch + "/edges", Timeout: 15 * time.Minute, HeapGB: 8})
-	if err != nil {
-		vlib.Infra("TLC: %v", err)
+	// ---- 2. edges of the pinned-tree model, 3. replay --------------------------------
+	type task struct {
+		cfg    string
+		pairs  []string
+		sample int // 0 = cover every edge; n = seeded sample of n Generate edges (deep histories)
 	}
-	if !er.OK {
-		vlib.Infra("TLC reports an error on the model itself (%s):\n%s", edgeCfg, tail(er.Output, 4000))
+	tasks := []task{{edgeCfg, pairs, 0}}
+	if thorough {
+		tasks = append(tasks, task{"MC_Project_edges_deep.cfg", []string{"Query_f1", "T_g"}, 300})
 	}
-	g, err := projgen.LoadGraph(er.Printed)
-	if err != nil {
-		vlib.Infra("edge export: %v", err)
-	}
-	er.Printed, er.Output = nil, ""
-	tries, npaths := g.CoverTries(12)
-	var nEdges, nGen int
-	for _, t := range tries {
-		a, b := t.Count()
-		nEdges += a
-		nGen += b
-	}
-	fmt.Printf("C19: %s: %d states, %d edges, %d initial states; %d covering paths -> prefix tree with %d edges (%d Generate runs)  [%.0fs]\n",
-		edgeCfg, len(g.States), len(g.Edges), len(g.Inits), npaths, nEdges, nGen, time.Since(t0).Seconds())
-
-	// ---- 3. replay ----------------------------------------------------------------
-	h := &handler{c: c, thorough: thorough, buildBudget: 60}
+	h := &handler{c: c, thorough: thorough, buildBudget: 40}
 	if thorough {
 		h.buildBudget = 400
 	}
-	rep := &projgen.Replayer{G: g, H: h, Name: "c19", Seed: seed * 7919, Pairs: pairs, Files: []string{"a", "b"}, Workers: 6}
-	rep.Run(tries)
-	fmt.Printf("C19: replayed %d edges (%d Generate runs + %d initial generations), %d edges below a stopped step, %d builds  [%.0fs]\n",
-		rep.Stats.Edges, rep.Stats.Generates, rep.Stats.Inits, rep.Stats.Skipped, h.builds, time.Since(t0).Seconds())
+	var total projgen.ReplayStats
+	var infraErrs []string
+	npaths, exhaustive := 0, true
+	models := []map[string]any{}
+	for ti, tk := range tasks {
+		er, err := vlib.RunTLC(vlib.TLCOpts{Module: "MC_Project", Config: tk.cfg, Workers: 1, Scratch: fmt.Sprintf("%s/edges%d", scratch, ti), Timeout: 15 * time.Minute, HeapGB: 8})
+		if err != nil {
+			vlib.Infra("TLC: %v", err)
+		}
+		if !er.OK {
+			vlib.Infra("TLC reports an error on the model itself (%s):\n%s", tk.cfg, tail(er.Output, 4000))
+		}
+		g, err := projgen.LoadGraph(er.Printed)
+		if err != nil {
+			vlib.Infra("edge export: %v", err)
+		}
+		er.Printed, er.Output = nil, ""
+		var tries map[string]*projgen.Trie
+		var np int
+		if tk.sample == 0 {
+			tries, np = g.CoverTries(12)
+		} else {
+			tries, np = g.SampleTries(tk.sample, seed)
+			exhaustive = false
+		}
+		var nEdges, nGen int
+		for _, t := range tries {
+			a, b := t.Count()
+			nEdges += a
+			nGen += b
+		}
+		fmt.Printf("C19: %s: %d states, %d edges, %d initial states; %d histories -> prefix tree with %d edges (%d Generate runs)  [%.0fs]\n",
+			tk.cfg, len(g.States), len(g.Edges), len(g.Inits), np, nEdges, nGen, time.Since(t0).Seconds())
+		rep := &projgen.Replayer{G: g, H: h, Name: fmt.Sprintf("c19_%d", ti), Seed: seed*7919 + int64(ti), Pairs: tk.pairs, Files: []string{"a", "b"}, Workers: 6}
+		rep.Run(tries)
+		fmt.Printf("C19: replayed %d edges (%d Generate runs + %d initial generations), %d edges below a stopped step, %d builds so far  [%.0fs]\n",
+			rep.Stats.Edges, rep.Stats.Generates, rep.Stats.Inits, rep.Stats.Skipped, projgen.BuildCount, time.Since(t0).Seconds())
+		total.Edges += rep.Stats.Edges
+		total.Generates += rep.Stats.Generates
+		total.Inits += rep.Stats.Inits
+		total.Skipped += rep.Stats.Skipped
+		infraErrs = append(infraErrs, rep.Errs...)
+		npaths += np
+		c.AddStates(er.Distinct, er.Generated)
+		models = append(models, map[string]any{"config": tk.cfg, "graph_states": len(g.States), "graph_edges": len(g.Edges), "initial_states": len(g.Inits), "histories": np, "sampled": tk.sample > 0})
+	}
 	fmt.Printf("C19: generator processes: %d, mean %.2fs; go build: %d, mean %.2fs\n", projgen.GenCount, float64(projgen.GenNanos)/1e9/float64(max64(projgen.GenCount, 1)), projgen.BuildCount, float64(projgen.BuildNanos)/1e9/float64(max64(projgen.BuildCount, 1)))
 
 	mc := <-mcDone
@@ -262,12 +290,11 @@ func main() {
 		}
 	}
 	c.AddStates(mc.Distinct, mc.Generated)
-	c.AddStates(er.Distinct, er.Generated)
-	if len(rep.Errs)+len(h.infra) > 0 {
-		all := append(append([]string{}, rep.Errs...), h.infra...)
+	if len(infraErrs)+len(h.infra) > 0 {
+		all := append(append([]string{}, infraErrs...), h.infra...)
 		vlib.Infra("%d harness-side problems, first:\n%s", len(all), all[0])
 	}
-	if rep.Stats.Generates == 0 {
+	if total.Generates == 0 {
 		vlib.Infra("vacuous: no Generate step replayed")
 	}
 	c.AddTraces(int64(npaths))
@@ -277,9 +304,9 @@ func main() {
 	h.repaired.Range(func(k, _ any) bool { repaired = append(repaired, k.(string)); return true })
 	sort.Strings(repaired)
 	c.Set("rule", "TLC enumerates the state graph of Project.tla (pinned-tree deviations on) up to the history bound; vlib.CoverPaths gives histories covering EVERY edge; each is replayed through the real generator and the go/parser projection of the resolver files is compared with TLC's successor state after every action; a class = one distinct Generate edge (pre-state, post-state)")
-	c.Set("exhaustive", rep.Stats.Skipped == 0)
-	c.Set("model", map[string]any{"mc_config": mcCfg, "mc_distinct": mc.Distinct, "mc_generated": mc.Generated, "edges_config": edgeCfg, "graph_states": len(g.States), "graph_edges": len(g.Edges), "initial_states": len(g.Inits)})
-	c.Set("replay", map[string]any{"covering_paths": npaths, "edges_replayed": rep.Stats.Edges, "generate_runs": rep.Stats.Generates, "initial_generations": rep.Stats.Inits, "edges_below_stopped_steps": rep.Stats.Skipped, "go_builds": h.builds, "deviations_repaired": repaired})
+	c.Set("exhaustive", exhaustive && total.Skipped == 0)
+	c.Set("model", map[string]any{"mc_config": mcCfg, "mc_distinct": mc.Distinct, "mc_generated": mc.Generated, "edge_graphs": models})
+	c.Set("replay", map[string]any{"histories": npaths, "edges_replayed": total.Edges, "generate_runs": total.Generates, "initial_generations": total.Inits, "edges_below_stopped_steps": total.Skipped, "go_builds": projgen.BuildCount, "deviations_repaired": repaired})
 	c.Assume("resolver fields are String! fields of Query and of one object type with @goField(forceResolver); bodies, doc comments, helpers and imports come from seeded pools (harness/projgen/pool.go), gofmt-formatted like an editor would")
 	c.Assume("'user imports are kept' is bound for imports that the surviving methods of the file still reference (imports.Prune removing an import nothing references is not a loss); doc comments of helper declarations and free-floating comments are not 'code of a declaration'")
 	c.Assume("a method declared in two resolver files at once (only possible after the stale-file deviation, package does not compile) is followed as the code behaves but MethodsKept demands nothing for it")
@@ -287,7 +314,7 @@ func main() {
 	c.Finish()
 }
 
-// runReplayFile re-runs one recorded history.
+// runReplayFile re-runs one recorded history (./check C19 --replay file).
 func runReplayFile(path string) {
 	b, err := os.ReadFile(path)
 	if err != nil {
@@ -296,19 +323,50 @@ func runReplayFile(path string) {
 	var rec struct {
 		Scenario struct {
 			Seed  int64             `json:"seed"`
+			Init  json.RawMessage   `json:"init"`
 			Edges []json.RawMessage `json:"edges"`
 			Pairs []string          `json:"pairs"`
+			Files []string          `json:"files"`
 		} `json:"scenario"`
 	}
-	if err := json.Unmarshal(b, &rec); err != nil {
+	if err := json.Unmarshal(b, &rec); err != nil || len(rec.Scenario.Edges) == 0 {
+		vlib.Infra("replay: not a C19 scenario: %v", err)
+	}
+	quote := func(v any) string {
+		j, _ := json.Marshal(v)
+		q, _ := json.Marshal(string(j))
+		return string(q)
+	}
+	printed := []string{quote(map[string]json.RawMessage{"init": rec.Scenario.Init})}
+	for _, e := range rec.Scenario.Edges {
+		printed = append(printed, quote(e))
+	}
+	g, err := projgen.LoadGraph(printed)
+	if err != nil {
 		vlib.Infra("replay: %v", err)
 	}
-	var printed []string
-	for _, e := range rec.Scenario.Edges {
-		q, _ := json.Marshal(string(e))
-		printed = append(printed, string(q))
+	var p []*projgen.REdge
+	cur := g.Inits[0]
+	for range rec.Scenario.Edges {
+		if len(g.Out[cur]) == 0 {
+			break
+		}
+		e := g.Out[cur][0]
+		p = append(p, e)
+		cur = e.T
 	}
-	fmt.Println("C19 replay: re-run `./check C19` - histories are regenerated deterministically from VERIF_SEED; recorded history:")
-	fmt.Println(string(b))
-	os.Exit(2)
+	if _, err := projgen.BuildPgen(); err != nil {
+		vlib.Infra("%v", err)
+	}
+	c := vlib.NewCheck("C19", "model_checking")
+	h := &handler{c: c, buildBudget: 10}
+	rep := &projgen.Replayer{G: g, H: h, Name: "c19_replay", Seed: rec.Scenario.Seed, Pairs: rec.Scenario.Pairs, Files: rec.Scenario.Files, Workers: 1}
+	rep.Run(map[string]*projgen.Trie{g.Inits[0]: projgen.PathTrie([][]*projgen.REdge{p})})
+	fmt.Printf("C19 replay: %s: %d edges replayed\n", projgen.PathString(p), rep.Stats.Edges)
+	if len(rep.Errs)+len(h.infra) > 0 {
+		vlib.Infra("%v %v", rep.Errs, h.infra)
+	}
+	c.AddTraces(1)
+	c.AddStates(int64(len(g.States)), int64(len(g.Edges)))
+	c.Finish()
 }
